@@ -58,6 +58,36 @@ CHECKS = {
                 "with no LDM lock held. Does NOT decide linearizability of multi-step IF.LDM operations, nor TinyDB.",
         "note": _BASE_NOTE + "Shared-state table frozen in rules/c16.py; fails closed when a row matches nothing.",
     },
+    "C03": {
+        "technique": "static analysis: guard-fact (must-pass-through) and access-path provenance rules forming a sanitiser "
+                     "discipline; truth-condition extraction of the certificate predicates",
+        "text": "Decides: every call of the common-header dispatcher is guarded by 'security not enabled' or by "
+                "verify(received bytes).report == SUCCESS and then dispatches exactly that confirm's plain_message; every "
+                "construction of a SUCCESS confirm is guarded by a true backend.verify_with_pk over the re-encoded tbsData of "
+                "the same decoded message, with that message's signature, under the verification key of a ticket that (a) came "
+                "from the certificate library's signer lookups on the message's own signer field, (b) is not None, verified "
+                "(Certificate.verify) and is an authorization ticket; the delivered plain message is the payload inside the same "
+                "tbsData; the library's lookups return only exact-key known tickets or certificates that verified with an issuer "
+                "from the library's dictionaries; Certificate.verify / verify_signature / PythonECDSABackend.verify_with_pk can "
+                "only answer True through the signature, issuer-correspondence and permission-containment checks. Does NOT "
+                "decide cryptographic strength or OER-parser behaviour under bit flips.",
+        "note": _BASE_NOTE + "The suite mocks verify(), the library and certificates; these rules read the real code. Values "
+                "are compared as access paths after expanding locals (SSA-style), so routing through locals/helpers is neutral.",
+    },
+    "C06": {
+        "technique": "static analysis: must-call (transitive always-calls summaries), guard intervals and provenance of the "
+                     "forwarded packet operands over all receive handlers",
+        "text": "Decides for all 8 receive handlers (found from the dispatcher): every delivery, forward (immediate or CBF-deferred) "
+                "and location-table update is dominated by duplicate_address_detection on the decoded source address; every "
+                "multi-hop delivery/forward is dominated by check_duplicate_sn on the decoded sequence number and no sink sits in "
+                "an except handler; every forwarded copy is <received basic header>.set_rhl(rhl-1) under an established lower "
+                "bound RHL >= 2, followed by the received common header, the decoded extended header (DE PV replaced only under "
+                "`LocT tst > packet tst`) and the residual payload; DPL ring bookkeeping (raise iff member, before insertion, "
+                "paired add/append, eviction only when full); CBF timers armed only for new keys, duplicates pop+cancel, and "
+                "overheard duplicates reach the cancel. Does NOT decide flood termination, timer expiry points, SN wrap-around.",
+        "note": _BASE_NOTE + "Helper functions (gn_data_forward_gbc, gn_area_cbf_forwarding) are analysed with the facts of all "
+                "their in-source call sites (intersection).",
+    },
 }
 
 NOT_APPLICABLE = {}
